@@ -31,6 +31,8 @@ import (
 	"time"
 
 	"github.com/sboehler/knut/lib/common/cpr"
+	"github.com/sboehler/knut/lib/model/account"
+	"github.com/sboehler/knut/lib/model/commodity"
 )
 
 func init() {
@@ -1444,6 +1446,151 @@ func (c *Ctx) c19LoaderRun(stream string, jobs []*loaderJob) []int {
 	return suspects
 }
 
+// ---------------------------------------------------------------- shared stream
+
+// c19Shared: sibling files which all introduce the same new commodities and accounts at the same moment. The files are
+// converted concurrently (model.FromStream) through the shared registries; the journal processed must still be the
+// union of the files' directives, so the balance of the include tree is the balance of the concatenated file.
+func (c *Ctx) c19Shared() {
+	n := c.N(16, 100)
+	reps := c.N(12, 30)
+	type job struct {
+		Index, Files, Comms int
+		flat             procResult
+		runs             []procResult
+	}
+	var jobs []*job
+	for i := 0; i < n; i++ {
+		if !c.Want("shared", i) {
+			continue
+		}
+		r := c.Rng("shared", i)
+		jobs = append(jobs, &job{Index: i, Files: r.Range(3, 12), Comms: r.Range(50, 500)})
+	}
+	dir := filepath.Join(c.WorkDir, "shared")
+	parallel(len(jobs), 4, func(k int) {
+		jb := jobs[k]
+		jd := filepath.Join(dir, itoa(jb.Index))
+		os.MkdirAll(jd, 0o755)
+		defer os.RemoveAll(jd)
+		var root, flat strings.Builder
+		root.WriteString("2020-01-01 open Equity:A1\n2020-01-01 open Assets:A0\n\n")
+		flat.WriteString(root.String())
+		for f := 0; f < jb.Files; f++ {
+			var b strings.Builder
+			for k := 0; k < jb.Comms; k++ {
+				fmt.Fprintf(&b, "2020-01-%02d \"t\"\nEquity:A1 Assets:A0 %d K%d\n\n", 2+f, f+1, k)
+			}
+			os.WriteFile(filepath.Join(jd, fmt.Sprintf("f%d.knut", f)), []byte(b.String()), 0o644)
+			fmt.Fprintf(&root, "include \"f%d.knut\"\n", f)
+			flat.WriteString(b.String())
+		}
+		os.WriteFile(filepath.Join(jd, "root.knut"), []byte(root.String()), 0o644)
+		os.WriteFile(filepath.Join(jd, "flat.knut"), []byte(flat.String()), 0o644)
+		jb.flat = runProc(20*time.Second, jd, nil, c.KnutBin, "balance", "flat.knut")
+		for s := 0; s < reps; s++ {
+			var env []string
+			if s%3 == 2 { // the scheduling hook of the pipeline slows the converters down: most runs go without it
+				env = []string{fmt.Sprintf("KNUT_VERIF_SEED=%d", c.Seed*7919+uint64(jb.Index*31+s)+1)}
+			}
+			jb.runs = append(jb.runs, runProc(20*time.Second, jd, env, c.KnutBin, "balance", "root.knut"))
+		}
+	})
+	for _, jb := range jobs {
+		c.Evals++
+		c.Class(fmt.Sprintf("shared/files%s/comms%s", nbucket(jb.Files), nbucket(jb.Comms)))
+		in := map[string]any{"files": jb.Files, "new_commodities_per_file": jb.Comms,
+			"layout": "root.knut opens Equity:A1 and Assets:A0 and includes f0..f<files-1>; file f books `Equity:A1 Assets:A0 <f+1> K<k>` for k < new_commodities_per_file on 2020-01-<2+f>; flat.knut is the concatenation",
+			"command": "knut balance root.knut  vs  knut balance flat.knut"}
+		c.Monitor("shared", jb.Index, "terminates", in, !jb.flat.Timeout, "timeout")
+		for k, pr := range jb.runs {
+			if !c.Monitor("shared", jb.Index, "C19_no_deadlock (command terminates)", in, !pr.Timeout, "timeout") {
+				continue
+			}
+			ok := pr.Exit == jb.flat.Exit && pr.Stdout == jb.flat.Stdout
+			c.Monitor("shared", jb.Index, "include tree balances like the concatenated file (no directive lost, duplicated or split)", in, ok,
+				fmt.Sprintf("run %d exit %d: %d lines, single file exit %d: %d lines; first difference: %s", k, pr.Exit, strings.Count(pr.Stdout, "\n"), jb.flat.Exit, strings.Count(jb.flat.Stdout, "\n"), firstDiffLine(pr.Stdout, jb.flat.Stdout)))
+		}
+	}
+}
+
+// c19Registry: the real registries under concurrent get-or-create, in process: every goroutine resolves the same new
+// names at the same time; the property predicate of C19_registry_unique / _injective on what the calls returned.
+func (c *Ctx) c19Registry() {
+	n := c.N(60, 600)
+	for i := 0; i < n; i++ {
+		if !c.Want("registry", i) {
+			continue
+		}
+		r := c.Rng("registry", i)
+		workers, names := r.Range(2, 16), r.Range(1, 300)
+		c.Evals++
+		c.Class(fmt.Sprintf("registry/workers%s/names%s", nbucket(workers), nbucket(names)))
+		in := map[string]any{"goroutines": workers, "names": names, "what": "every goroutine calls commodity.Registry.Get(\"K<k>\") and account.Registry.Get(\"Assets:A<k>:B\") for k < names, all starting together"}
+		creg, areg := commodity.NewCommodities(), account.NewRegistry()
+		cres := make([][]*commodity.Commodity, workers)
+		ares := make([][]*account.Account, workers)
+		var wg sync.WaitGroup
+		start := make(chan struct{})
+		for w := 0; w < workers; w++ {
+			w := w
+			wg.Add(1)
+			go func() {
+				defer wg.Done()
+				<-start
+				for k := 0; k < names; k++ {
+					cm, _ := creg.Get(fmt.Sprintf("K%d", k))
+					ac, _ := areg.Get(fmt.Sprintf("Assets:A%d:B", k))
+					cres[w] = append(cres[w], cm)
+					ares[w] = append(ares[w], ac)
+				}
+			}()
+		}
+		close(start)
+		wg.Wait()
+		split, same := "", ""
+		seenC := map[*commodity.Commodity]int{}
+		seenA := map[*account.Account]int{}
+		for k := 0; k < names; k++ {
+			for w := 0; w < workers; w++ {
+				if cres[w][k] == nil || ares[w][k] == nil {
+					split = fmt.Sprintf("name %d: nil object for goroutine %d", k, w)
+				} else if cres[w][k] != cres[0][k] {
+					split = fmt.Sprintf("commodity K%d: goroutines 0 and %d got different objects", k, w)
+				} else if ares[w][k] != ares[0][k] {
+					split = fmt.Sprintf("account Assets:A%d:B: goroutines 0 and %d got different objects", k, w)
+				}
+			}
+			if j, ok := seenC[cres[0][k]]; ok {
+				same = fmt.Sprintf("commodities K%d and K%d are the same object", j, k)
+			}
+			if j, ok := seenA[ares[0][k]]; ok {
+				same = fmt.Sprintf("accounts %d and %d are the same object", j, k)
+			}
+			seenC[cres[0][k]], seenA[ares[0][k]] = k, k
+		}
+		c.Monitor("registry", i, "C19_registry_unique (one object per name)", in, split == "", split)
+		c.Monitor("registry", i, "C19_registry_injective (different names, different objects)", in, same == "", same)
+	}
+}
+
+func firstDiffLine(a, b string) string {
+	la, lb := strings.Split(a, "\n"), strings.Split(b, "\n")
+	for i := 0; i < len(la) || i < len(lb); i++ {
+		var x, y string
+		if i < len(la) {
+			x = la[i]
+		}
+		if i < len(lb) {
+			y = lb[i]
+		}
+		if x != y {
+			return fmt.Sprintf("line %d: %q vs %q", i+1, x, y)
+		}
+	}
+	return "none"
+}
+
 // ---------------------------------------------------------------- runner
 
 func runC19(c *Ctx) {
@@ -1470,4 +1617,12 @@ func runC19(c *Ctx) {
 		c.c19Loader()
 	}
 	c.Extra["loader_s"] = time.Since(t0).Seconds()
+	t0 = time.Now()
+	if !c.Replay || c.OnlyStr == "shared" {
+		c.c19Shared()
+	}
+	c.Extra["shared_s"] = time.Since(t0).Seconds()
+	if !c.Replay || c.OnlyStr == "registry" {
+		c.c19Registry()
+	}
 }
